@@ -95,7 +95,7 @@ func RunTrace(c *core.Ctx, job TraceJob) (bad []json.RawMessage, ok bool) {
 				return
 			}
 			if r.Violation {
-				outs[s].err = "TLC error:\n" + r.Tail(25)
+				outs[s].err = "TLC error:\n" + r.Tail(70)
 				return
 			}
 			b, err := os.ReadFile(rf)
